@@ -606,6 +606,11 @@ example : ∃ txt, (run (init ⟨['x'], 1, [], 1, false, ""⟩ [] [])
     ([] ++ .request 3 (.pairSetupM5 7 true) :: [.execRun 0, .loopRun 0])).log
       = [] ++ Obs.publish (some (run (init ⟨['x'], 1, [], 1, false, ""⟩ [] []) []).nextRid) txt :: [Obs.write 3 0] :=
   ⟨_, rfl⟩
+/-- the hypotheses of `C18_sf_tracks_pairing` are reachable: pair, config_changed, everything run -/
+example : (run (init ⟨['x'], 1, [], 9, false, ""⟩ [] [])
+      [.request 0 (.pairSetupM5 7 true), .configChanged, .execRun 0, .loopRun 0, .loopRun 0]).execQ = [] ∧
+    (run (init ⟨['x'], 1, [], 9, false, ""⟩ [] [])
+      [.request 0 (.pairSetupM5 7 true), .configChanged, .execRun 0, .loopRun 0, .loopRun 0]).loopQ = [] := by decide
 example : MacTailOk "AA:BB:CC:7A:8F:A9".toList := by decide
 example : PinShape "031-45-154".toList := by decide
 example : okChar 'é' = false ∧ okChar (Char.ofNat 0) = false := by decide
